@@ -19,8 +19,10 @@ struct KllFam {
     if (mode == 0) { const int k = static_cast<int>(r.pick({9, 10, 12})); cfg.assign(static_cast<size_t>(nsk), k); }
     else if (mode == 1) { for (auto& c : cfg) c = static_cast<int>(r.pick({8, 8, 9, 10, 12, 16})); }   // mixed k (min_k path)
   }
-  // mixed-k merge: the root has the LARGEST k (3k, k, 2k, 1.5k); the published error must be the one of the smallest k (min_k)
-  static int mixed_cfg(int cfg, int i) { static const int mul2[4] = {6, 2, 4, 3}; return cfg * mul2[i] / 2; }
+  // mixed-k merge ((4k + 2k) + (3k + k)): the root has the largest k and the smallest k arrives through an intermediate
+  // sketch, holding 85% of the stream; the published error must be the one of the smallest k (min_k)
+  static int mixed_cfg(int cfg, int i) { static const int mul2[4] = {8, 4, 6, 2}; return cfg * mul2[i] / 2; }
+  static const double* mixed_cuts() { static const double c[5] = {0.0, 0.05, 0.10, 0.15, 1.0}; return c; }
 };
 
 const char* property_id() { return "C08"; }
